@@ -284,6 +284,7 @@ static int exec_op(jval *op)
 	if (!strcmp(a, "connect")) return do_connect();
 	if (!bev || !E[e].alive) return -99;
 	if (!strcmp(a, "write")) return do_write(e, (long)j_int(op, "n", 0));
+	if (!strcmp(a, "trig")) { bufferevent_trigger_event(bev, (short)j_int(op, "f", 0), BEV_TRIG_DEFER_CALLBACKS); return 0; }
 	if (!strcmp(a, "read")) {      /* the application reads outside a callback */
 		long long k = j_int(op, "n", 0);
 		size_t il = evbuffer_get_length(bufferevent_get_input(bev)), i, got;
